@@ -240,7 +240,12 @@ def _fact_agree(prog: Program, p: Path, e: Event, cls: str, args: List[V], const
             continue
         if cls in ("MissingElementValidationError",):
             # index must be the index whose lookup raised
-            raised = [ev for ev in p.events if ev.kind == "partial" and ev.data.get("raised") is not None and ev.data.get("op") == "getitem"]
+            raised = []
+            for ev in p.events:
+                if ev is e:
+                    break
+                if ev.kind == "partial" and ev.data.get("raised") is not None and ev.data.get("op") == "getitem":
+                    raised.append(ev)
             if raised and raised[-1].data["operands"][1].key() == ak:
                 record("FACT-AGREE", c2, "HOLDS", site, "index is the one whose lookup raised IndexError")
             elif raised:
